@@ -259,6 +259,7 @@ int main(int argc, char** argv)
     else if( a == "--shims" ) o.shim_dir = next();
     else if( a == "--cfgs" ) o.cfgs = split(next(), ',');
     else if( a == "--san" ) o.san_cfgs = split(next(), ',');
+    else if( a == "--probes" ) o.probes = split(next(), ',');
     else if( a == "--out" ) o.out = next();
     else if( a == "--threads" ) o.threads = std::atoi(next().c_str());
     else if( a == "--deadline" ) o.deadline_s = std::atof(next().c_str());
@@ -275,7 +276,7 @@ int main(int argc, char** argv)
   Recorder rec;
   if( o.replay )
     {
-    Shim* s = load_shim(o.shim_dir, o.rcfg);
+    Shim* s = o.rcfg.rfind("probe-", 0) == 0 ? nullptr : load_shim(o.shim_dir, o.rcfg);
     def->replay(o, s, rec);
     rec.write_json(stdout, o, now_s() - g_start);
     return rec.violations() ? 1 : 0;
